@@ -184,6 +184,10 @@ def blowup(kind, n, lang):
         if rs:
             return "\n".join(f"fn f{i}(a: i32) -> i32 {{\n    a + {i % 3}\n}}\n" for i in range(n))
         return "\n".join(f"function f{i}(a) {{\n    return a + {i % 3};\n}}\n" for i in range(n))
+    elif kind == "bigdec":  # one numeric literal with n digits
+        body = f"{decl}v = " + "7" * n + end
+    elif kind == "bighex":
+        body = f"{decl}v = 0x" + "f" * n + end
     elif kind == "longline":
         body = f'{decl}v = "' + "x" * n + f'"{end}'
     elif kind == "comment":
@@ -197,7 +201,7 @@ def blowup(kind, n, lang):
     return f"function f(a, obj) {{\n    {body}\n}}\n"
 
 
-BLOWUPS = ["parens", "brackets", "sum", "sum-numbers", "chain", "strcat", "list", "unary", "elif", "blocks", "functions", "longline", "comment"]
+BLOWUPS = ["bigdec", "bighex", "parens", "brackets", "sum", "sum-numbers", "chain", "strcat", "list", "unary", "elif", "blocks", "functions", "longline", "comment"]
 
 BAD_UTF8 = [b"\xff\xfe", b"\xc3\x28", b"\xe2\x82", b"\xf0\x28\x8c\x28", b"\x80", b"\xed\xa0\x80"]
 INSERTS = [b"(", b")", b"[", b"]", b"{", b"}", b'"', b"'", b"`", b'"""', b"\\", b"\x00", b"\x0c", b"\r", b"\t", b"\xef\xbb\xbf", b"/*", b"*/", b"#", b"//", b"${", b"<", b">", b"=>", b"|", b"\\u", b"\xe2\x80\xa8"]
@@ -467,7 +471,12 @@ def raws(draw):
 
 @st.composite
 def blanks(draw):
-    text = draw(st.sampled_from(["", " ", "\n", "\n\n\n", "\t\n  \n", "\r\n", "﻿", "\x0c", "　\n", "#", "//", "/*", '"""', "#!/usr/bin/env python3\n", "\x00", "x = 1\x00\n", "def f():\n    return 1\x00\n", "\x1a"]))
+    text = draw(st.sampled_from(["", " ", "\n", "\n\n\n", "\t\n  \n", "\r\n", "﻿", "\x0c", "　\n", "#", "//", "/*", '"""', "#!/usr/bin/env python3\n", "\x00", "x = 1\x00\n", "def f():\n    return 1\x00\n", "\x1a",
+                                 # string literals whose VALUE is not encodable as UTF-8 (lone surrogate escapes), in the places string-valued rules look at
+                                 'def f(x):\n    if x in ("a\\ud800", "b", "c"):\n        return 1\n    return 0\n',
+                                 'def g(x):\n    if x == "\\udfff":\n        return 1\n    elif x == "ok":\n        return 2\n    return 0\n',
+                                 'function h(x) {\n    if (x === "\\ud800") {\n        return 1;\n    } else if (x === "ok") {\n        return 2;\n    }\n    return 0;\n}\n',
+                                 'setMode("\\ud800");\nsetMode("b");\n', 'set_mode("\\ud83d")\nset_mode("b")\n']))
     return {"kind": "blank", "text": text, "ext": draw(st.sampled_from(EXTS)), "rot": draw(st.integers(0, 19)), "all_cmds": draw(st.integers(0, 3)) == 0}
 
 
